@@ -54,18 +54,22 @@ def schedules_of(c, cfg):
 def gen_cases(c, n, seed0):
     cases = []
     for i in range(n):
-        g = tmplgen.Gen(seed0 + i)
+        g = tmplgen.Gen(seed0 + i, sort_loop_sets=True)
         d, nodes, text = g.template(depth=3)
         g2 = tmplgen.Gen(seed0 + i + 100003)
         d2 = g2.root()
         cases.append((text, tmplgen.to_json(d), tmplgen.to_json(d2)))
     # hand-written: every tag kind, sort and group loops, nested loops over shared data
-    doc = '{"list":[3,1,2],"recs":[{"y":"b","v":1},{"y":"a","v":2},{"y":"b","v":3}],"obj":{"k1":"x<y","k2":5},"a":2,"phrase":"{0}-{1}"}'
-    doc2 = '{"list":[9,8],"recs":[{"y":"z","v":7}],"obj":{"k1":"q"},"a":0,"phrase":"{1}+{0}"}'
+    doc = '{"list":[3,1,2],"recs":[{"y":"b","v":1},{"y":"a","v":2},{"y":"b","v":3}],"obj":{"k1":"x<y","k2":5},"a":2,"phrase":"{0}-{1}","rows":[{"a":[2,1],"b":[5,4,6]},{"a":[9,7,8],"b":[3,1]}]}'
+    doc2 = '{"list":[9,8],"recs":[{"y":"z","v":7}],"obj":{"k1":"q"},"a":0,"phrase":"{1}+{0}","rows":[{"a":[1,3,2],"b":[2,1]}]}'
     for text in ['<loop set="list" value="x" sort="ascend">{var:x},</loop>|<loop set="list" value="x" sort="descend">{var:x};</loop>|<loop set="list" value="x">{var:x}.</loop>',
                  '<loop set="recs" value="g" group="y">[{var:g}:<loop set="g" value="r">{var:r[v]}</loop>]</loop>{svar:phrase, {var:a}, {math:{var:a}*3}}',
                  '<loop set="obj" value="m">{var:m}={raw:m};</loop><if case="{var:a} > 1">big<else if case="{var:a} == 0">zero<else>small</if>{if case="{var:a}" true="{var:obj[k1]}" false="F"}',
-                 '<loop set="recs" value="r"><loop set="list" value="x">{var:r[y]}{var:x}<if case="{var:x} == {var:r[v]}">!</if></loop>/</loop>']:
+                 '<loop set="recs" value="r"><loop set="list" value="x">{var:r[y]}{var:x}<if case="{var:x} == {var:r[v]}">!</if></loop>/</loop>',
+                 # sorted loops over sets that belong to an outer loop's item, inside sorted / grouped loops (three levels)
+                 '<loop set="rows" value="r"><loop set="r[a]" value="x" sort="ascend">{var:x}<loop set="r[b]" value="y" sort="ascend">{var:y},</loop>;</loop>|</loop>',
+                 '<loop set="rows" value="r"><loop set="r[b]" value="x" sort="descend"><loop set="r[a]" value="y" sort="descend">{var:y}{var:x} </loop></loop>/</loop>',
+                 '<loop set="recs" value="g" group="y" sort="descend"><loop set="g" value="r"><loop set="list" value="x" sort="ascend">{var:x}{var:r[v]}</loop></loop></loop>']:
         cases.append((text, doc, doc2))
     return cases
 
